@@ -97,3 +97,58 @@ Example C05_nonvacuous :
   map (fun n => map b_round (s_chain (fst n))) (rounds x_C x_idx x_vpart x_recov x_vrec 2 [x_node 0; x_node 1; x_node 2])
   = [[2; 1; 0]; [2; 1; 0]; [2; 1; 0]].
 Proof. vm_compute. reflexivity. Qed.
+
+(* ---------- in the composed system Model/Net.v (see Props/C04.v for the model) ---------- *)
+From DV Require Import Model.Net Proofs.NetLive.
+Section C05_system.
+  Variable C : cfg.
+  Variable idx_of : Z -> Z.
+  Variable vpart : Z -> Z -> Z -> Z -> bool.
+  Variable recov : Z -> Z -> Z -> list Z -> Z -> option Z.
+  Variable vrec : Z -> Z -> Z -> bool.
+  Variable own_of : Z -> Z -> Z -> Z -> Z.
+  Hypothesis recov_complete : forall P r p sigs t,
+    NoDup (map idx_of sigs) -> t <= Z.of_nat (length sigs) ->
+    (forall x, In x sigs -> vpart P r p x = true) ->
+    exists s, recov P r p sigs t = Some s /\ vrec r p s = true.
+  Hypothesis limit_nonneg : 0 <= c_limit C.
+  Hypothesis vrec_unchained : c_chained C = false -> forall r p p' s, vrec r p s = vrec r p' s.
+  Hypothesis vrec_unique : forall r p s1 s2, vrec r p s1 = true -> vrec r p s2 = true -> s1 = s2.
+
+  (* The system adds nothing to a node's behaviour but the routing of messages: the state of
+     node j after ANY run of the system model (any adversarial schedule) is the node-local run of
+     the events of that run that concern node j.  This is what lets the node-local theorems
+     (which are the ones compared with the real Handler) speak about the composed system. *)
+  Theorem C05_system_projection : forall gs y j s, nth_error (y_nodes y) j = Some s ->
+    nth_error (y_nodes (grun C idx_of vpart recov vrec own_of y gs)) j
+    = Some (lrun C idx_of vpart recov vrec own_of s (flat_map (proj j) gs)).
+  Proof. exact (grun_proj C idx_of vpart recov vrec own_of). Qed.
+
+  (* Liveness: from an aligned state of the system (every honest node running on the same head,
+     at least a threshold of them, clocks allowing the next k rounds) k fair schedules --
+     everybody handles the tick, then everybody's partial reaches everybody else -- are runs of
+     the system model after which every node has appended the same k verified beacons, one round
+     after the other with none skipped, and the system is aligned again: for every n, t, k. *)
+  Theorem C05_system_fair_rounds : forall k y G hb rmax,
+    sys_ok C idx_of vpart G (map (node_of own_of) (y_nodes y)) hb rmax -> b_round hb + Z.of_nat k <= rmax ->
+    exists hbk, b_round hbk = b_round hb + Z.of_nat k /\
+      sys_ok C idx_of vpart G (map (node_of own_of) (y_nodes (run_rounds C idx_of vpart recov vrec own_of k y))) hbk rmax /\
+      forall j s, nth_error (y_nodes y) j = Some s ->
+        exists s' added, nth_error (y_nodes (run_rounds C idx_of vpart recov vrec own_of k y)) j = Some s' /\
+          s_chain s' = added ++ s_chain s /\ length added = k /\
+          Forall (fun b => vrec (b_round b) (b_prev b) (b_sig b) = true) added.
+  Proof.
+    exact (rounds_complete C idx_of vpart recov vrec own_of recov_complete limit_nonneg vrec_unchained vrec_unique).
+  Qed.
+End C05_system.
+Print Assumptions C05_system_projection.
+Print Assumptions C05_system_fair_rounds.
+
+(* non-vacuity in the system model: the same three aligned nodes as a system state; two fair
+   schedules are runs of [gstep] after which every node holds 2 :: 1 :: genesis *)
+Example C05_system_nonvacuous :
+  map (fun s => map b_round (s_chain s))
+      (y_nodes (run_rounds x_C x_idx x_vpart x_recov x_vrec x_own 2
+                  (init_sys (mkB 0 (-1) 0) 1100 [mkG 0 2 [0; 1; 2] 0; mkG 0 2 [0; 1; 2] 1; mkG 0 2 [0; 1; 2] 2])))
+  = [[2; 1; 0]; [2; 1; 0]; [2; 1; 0]].
+Proof. vm_compute. reflexivity. Qed.
